@@ -269,7 +269,9 @@ func TestC20_SharedComponents(t *testing.T) {
 	defer runtime.GOMAXPROCS(runtime.GOMAXPROCS(0))
 	check(t, "C20", 30, func(t *rapid.T) {
 		s := &c20Shared{stack: newStack(wideProtocol()), handler: handler, vdr: vdr,
-			tr: didtransformer.New(didtransformer.WithBase(true), didtransformer.WithIncludePublishedOperations(true))}
+			tr: didtransformer.New(didtransformer.WithBase(rapid.Bool().Draw(t, "base")), didtransformer.WithIncludePublishedOperations(true),
+				didtransformer.WithMethodContext(rapid.SampledFrom([][]string{nil, {"https://m1.example"}, {"https://m1.example", "https://m2.example"},
+					{"https://m1.example", "https://m2.example", "https://m3.example", "https://m4.example"}}).Draw(t, "methodCtx")))}
 		ncalls := rapid.IntRange(50, 200).Draw(t, "ncalls")
 		calls := genC20Calls(t, s, ncalls)
 		procs := rapid.SampledFrom([]int{1, 2, 4, 16}).Draw(t, "gomaxprocs")
